@@ -83,7 +83,8 @@ def inv_connect_kwargs(lc):
 
 
 # ---- input_signature ---------------------------------------------------------------------------------------------------------------------------
-sig_value = lambda v: If(Val.is_T(v), Val.I(tup_len(Val.tk(v))), Val.VNone)
+is_group = lambda v: And(Val.is_T(v), tup_is_tuple(Val.tk(v)))          # connect() saves every group as a tuple
+sig_value = lambda v: If(is_group(v), Val.I(tup_len(Val.tk(v))), Val.VNone)
 
 
 @contract('CBlock.input_signature', qual=Q + 'input_signature', modifies=(), self_cls='CBlock')
@@ -94,7 +95,7 @@ def _input_signature(c):
     c.raises('EdzedInvalidState', when=Not(Exists([k], OV.is_Some(ins[k]))), iff=True, label='not_connected_yet')
     r = c.rv
     c.ensures('is_a_dict', Val.is_D(r))
-    d = Val.d(r)
+    d = dict_c(Val.dk(r))
     c.ensures('one_entry_per_input_name', ForAll([k], Opt.is_Some(d[k]) == OV.is_Some(ins[k])))
     c.ensures('group_size_or_none', ForAll([k], Implies(OV.is_Some(ins[k]), Opt.v(d[k]) == sig_value(OV.v(ins[k])))))
     k0 = Const('k0!is', StringSort())
